@@ -74,8 +74,29 @@ func xfResponse(kind string, payload []byte, which int) packet.Response {
 }
 
 func xfCall(req modbus.BuilderRequest, resp packet.Response, lenient bool) string {
+	s, _ := xfCallKeep(req, resp, lenient)
+	return s
+}
+
+// xfRender renders a result the caller holds (the values, without the overall verdict)
+func xfRender(vals []modbus.FieldValue) string {
 	return guarded(func() string {
+		strs := make([]string, len(vals))
+		for j, fv := range vals {
+			if fv.Error != nil {
+				strs[j] = fv.Field.Name + "=!err"
+			} else {
+				strs[j] = fv.Field.Name + "=" + valueStr(fv.Value)
+			}
+		}
+		return strings.Join(strs, ",")
+	})
+}
+
+func xfCallKeep(req modbus.BuilderRequest, resp packet.Response, lenient bool) (out string, kept []modbus.FieldValue) {
+	out = guarded(func() string {
 		vals, xerr := req.ExtractFields(resp, lenient)
+		kept = vals
 		strs := make([]string, len(vals))
 		for j, fv := range vals {
 			if fv.Error != nil {
@@ -95,6 +116,7 @@ func xfCall(req modbus.BuilderRequest, resp packet.Response, lenient bool) strin
 		}
 		return "failed "
 	})
+	return out, kept
 }
 
 func execXf(ts []string) string {
@@ -105,7 +127,8 @@ func execXf(ts []string) string {
 	req := modbus.BuilderRequest{ServerAddress: "x", UnitID: 1, StartAddress: start, Fields: fields}
 	which := variantOf(ts[4] + ts[5])
 	resp := xfResponse(kind, work, which)
-	first := xfCall(req, resp, lenient)
+	first, held := xfCallKeep(req, resp, lenient)
+	heldAs := xfRender(held)
 	second := xfCall(req, resp, lenient)
 	same := "same"
 	if !bytes.Equal(work, orig) {
@@ -128,6 +151,11 @@ func execXf(ts []string) string {
 			s = s[strings.Index(s, " ")+1:]
 		}
 		solo[i] = s
+	}
+	// the result of the first extraction is the caller's: the extractions made since (the same one again, every field
+	// alone) have not touched it
+	if xfRender(held) != heldAs {
+		first += " RETAINED-RESULT-CHANGED-BY-A-LATER-EXTRACTION"
 	}
 	return fmt.Sprintf("%s | %s | solo:%s | payload=%s", first, second, strings.Join(solo, ","), same)
 }
